@@ -12,6 +12,7 @@ import (
 	"net/http"
 	"net/http/httptest"
 	"strings"
+	"sync"
 	"time"
 
 	"github.com/gin-gonic/gin"
@@ -179,10 +180,13 @@ func main() {
 	w := out.NewWriter(cfg, "Verif.Corr.C12", 400)
 
 	// ---- proxy level ----
-	proxyCase := func(d, c cfgval, rp reply) {
-		be := &config.Backend{Encoding: encoding.JSON, Decoder: encoding.JSONDecoder, ExtraConfig: extra(d, c)}
-		p := proxy.NewHTTPProxyWithHTTPExecutor(be, executor(rp), be.Decoder)
-		resp, err := p(context.Background(), &proxy.Request{Method: "GET", URL: mustURL("http://h/x"), Headers: map[string][]string{}})
+	type pobs struct {
+		obs, ec, ej string
+		obsJS       interface{}
+		dec         map[string]interface{}
+	}
+	observe := func(p proxy.Proxy, rp reply, u string) pobs {
+		resp, err := p(context.Background(), &proxy.Request{Method: "GET", URL: mustURL(u), Headers: map[string][]string{}})
 		dec := decodeIndependent(rp.body)
 		obs := "None"
 		var obsJS interface{}
@@ -199,12 +203,72 @@ func main() {
 			obsJS = map[string]interface{}{"data": data, "complete": resp.IsComplete, "status": resp.Metadata.StatusCode}
 		}
 		ec, ej := perrCoq(err, dec != nil)
-		term := emit.App("CProxy", d.coq(), c.coq(), rp.coq(), optObj(dec, dec != nil), emit.Pair(obs, ec))
-		js := map[string]interface{}{"level": "proxy", "details": d.String(), "code_cfg": c.String(), "reply": rp.js(), "observed": map[string]interface{}{"resp": obsJS, "err": ej}}
-		canon := fmt.Sprintf("P|%v|%v|%d|%s|%s", d, c, rp.code, rp.body, rp.enc)
-		w.Count("level:proxy")
+		return pobs{obs, ec, ej, obsJS, dec}
+	}
+	emitProxy := func(d, c cfgval, rp reply, o pobs, level string) {
+		term := emit.App("CProxy", d.coq(), c.coq(), rp.coq(), optObj(o.dec, o.dec != nil), emit.Pair(o.obs, o.ec))
+		js := map[string]interface{}{"level": level, "details": d.String(), "code_cfg": c.String(), "reply": rp.js(), "observed": map[string]interface{}{"resp": o.obsJS, "err": o.ej}}
+		canon := fmt.Sprintf("%s|%v|%v|%d|%s|%s", level, d, c, rp.code, rp.body, rp.enc)
+		w.Count("level:" + level)
 		w.Count("mode:" + modeName(d, c))
 		w.Add(term, js, "", canon, rp.code != 200)
+	}
+	proxyCase := func(d, c cfgval, rp reply) {
+		be := &config.Backend{Encoding: encoding.JSON, Decoder: encoding.JSONDecoder, ExtraConfig: extra(d, c)}
+		p := proxy.NewHTTPProxyWithHTTPExecutor(be, executor(rp), be.Decoder)
+		emitProxy(d, c, rp, observe(p, rp, "http://h/x"), "proxy")
+	}
+	// one proxy shared by concurrent requests that get different replies: every caller must
+	// see its own backend's status and body (state shared between in-flight requests would
+	// show up as another request's code or body)
+	concurrentBatch := func(d, c cfgval, goroutines, calls int) {
+		be := &config.Backend{Encoding: encoding.JSON, Decoder: encoding.JSONDecoder, ExtraConfig: extra(d, c)}
+		replyOf := func(g, k int) reply {
+			code := 100 + (g*131+k*17)%500
+			if (g+k)%5 == 0 {
+				code = 200 + (g+k)%2
+			}
+			b := bodies[(g+k)%len(bodies)]
+			body := b.body
+			if strings.HasPrefix(body, "{\"a\"") {
+				body = fmt.Sprintf(`{"a":%d,"secret":"MARKER-%d-%d"}`, g*1000+k, g, k)
+			} else if b.enc == "text/plain" {
+				body = fmt.Sprintf("MARKER-plain-%d-%d", g, k)
+			}
+			return reply{code, body, b.enc}
+		}
+		exec := func(_ context.Context, req *http.Request) (*http.Response, error) {
+			var g, k int
+			fmt.Sscanf(req.URL.Path, "/c/%d/%d", &g, &k)
+			r := replyOf(g, k)
+			h := http.Header{}
+			if r.enc != "" {
+				h.Set("Content-Type", r.enc)
+			}
+			return &http.Response{StatusCode: r.code, Header: h, Body: io.NopCloser(strings.NewReader(r.body))}, nil
+		}
+		p := proxy.NewHTTPProxyWithHTTPExecutor(be, exec, be.Decoder)
+		res := make([][]pobs, goroutines)
+		start := make(chan struct{})
+		var wg sync.WaitGroup
+		for g := 0; g < goroutines; g++ {
+			res[g] = make([]pobs, calls)
+			wg.Add(1)
+			go func(g int) {
+				defer wg.Done()
+				<-start
+				for k := 0; k < calls; k++ {
+					res[g][k] = observe(p, replyOf(g, k), fmt.Sprintf("http://h/c/%d/%d", g, k))
+				}
+			}(g)
+		}
+		close(start)
+		wg.Wait()
+		for g := 0; g < goroutines; g++ {
+			for k := 0; k < calls; k++ {
+				emitProxy(d, c, replyOf(g, k), res[g][k], "proxy-concurrent")
+			}
+		}
 	}
 	for code := 100; code <= 599; code++ {
 		for mi, m := range [][2]cfgval{{detailsVals[0], codeVals[0]}, {detailsVals[0], codeVals[1]}, {detailsVals[2], codeVals[0]}} {
@@ -224,6 +288,17 @@ func main() {
 				b := bodies[r.Intn(len(bodies))]
 				proxyCase(d, c, reply{code, b.body, b.enc})
 			}
+		}
+	}
+
+	// ---- proxy level, one proxy shared by concurrent in-flight requests ----
+	{
+		g, k := 8, 12
+		if cfg.Thorough() {
+			g, k = 16, 60
+		}
+		for _, m := range [][2]cfgval{{detailsVals[0], codeVals[0]}, {detailsVals[0], codeVals[1]}, {detailsVals[2], codeVals[0]}} {
+			concurrentBatch(m[0], m[1], g, k)
 		}
 	}
 
